@@ -308,7 +308,8 @@ class C01(Prop):
         # raw strings
         cases = []
         for (s, safe) in mito.raw_strings(self.max_len):
-            for silent in (True, False):
+            both = tier == "thorough" or mito.print_raises(s) or len(s) < 12
+            for silent in ((True, False) if both else (True,)):
                 lines = mito.header(rng, facts, tools=[("tool1", []), ("Calc", ["net"]), ("k", [])], silent=silent,
                                     ros=(1000, 1))
                 for forced in ["auto", "math", "logic", "tool", "transform"]:
